@@ -306,3 +306,42 @@ def rmfix_k_range(r):
 
 def post_rmfix_view(r):
     return view_texts(r.result, r.k) == view_texts(r.old_self, rmfix_offset(r) + r.k)
+
+
+# ------------------------------------------------------------------------------------------ X5 / Y2: split with separator
+def split_expected(r):
+    t = r.old_self._s
+    if r.r:
+        return t.rsplit(r.sep, r.maxsplit)
+    return t.split(r.sep, r.maxsplit)
+
+
+def post_split_texts(r):
+    e = split_expected(r)
+    if len(r.result) != len(e):
+        return False
+    i = 0
+    for piece in r.result:
+        if piece._s != e[i]:
+            return False
+        i += 1
+    return True
+
+
+def split_k_range(r):
+    return (0, len(r.old_self._s))
+
+
+def post_split_view(r):
+    """each piece keeps the settings of the original at its true offset (pieces are separated by exactly sep)"""
+    e = split_expected(r)
+    off = 0
+    i = 0
+    ok = True
+    for piece in r.result:
+        if r.k < len(piece._s):
+            if view_texts(piece, r.k) != view_texts(r.old_self, off + r.k):
+                ok = False
+        off = off + len(e[i]) + len(r.sep)
+        i += 1
+    return ok
